@@ -95,8 +95,10 @@ func (requestBody RequestBody) MarshalYAML() (any, error) {
 	if x := requestBody.Required; x {
 		m["required"] = x
 	}
-	if x := requestBody.Content; true {
+	if x := requestBody.Content; x != nil {
 		m["content"] = x
+	} else {
+		m["content"] = Content{} // a required field: an empty object, not null, which reloads as an empty object
 	}
 	return m, nil
 }
